@@ -1110,6 +1110,21 @@ impl Prop for Prims {
                         let n2 = cx.rng.range(1, 4);
                         ((0..n1).map(|_| *cx.rng.pick(&common)).collect(), (0..n2).map(|_| *cx.rng.pick(&common)).collect())
                     };
+                    // around every power of two the pair is one whose distance rests on the cost of a leading cheap letter
+                    // (a vowel or a digit dropped or added in front)
+                    let sensitive = !special && (3..=17).any(|b| {
+                        let p = 1usize << b;
+                        k + 3 >= p && k <= p + 2
+                    });
+                    let (c1, c2) = if sensitive {
+                        let w: Vec<char> = (0..cx.rng.range(1, 3)).map(|_| *cx.rng.pick(&common)).collect();
+                        let lead = *cx.rng.pick(&['a', 'e', '1']);
+                        let mut longer = vec![lead];
+                        longer.extend(w.iter());
+                        if k % 2 == 0 { (longer, w) } else { (w, longer) }
+                    } else {
+                        (c1, c2)
+                    };
                     let (t1, t2) = (classed(&c1), classed(&c2));
                     if special || k % 8192 == 0 {
                         cx.ctx(format!("C16 session call #{} {:?} {:?}", k + 1, s(&c1), s(&c2)));
